@@ -65,6 +65,9 @@ def prover_message_slot(ctx, body, fields, d):
                 sm = sm[1]
             if sm.tag == 'mut' and any(e.tag == 'ev' and e[2].endswith('::push') and e[3] and strip(e[3][0]) is comp[0] for e in sm[2]):
                 return slot
+            # stored: map(vec, compress) of the raw points, absorbed: compress(that very point) before it is pushed
+            if stored.tag == 'map' and sm.tag == 'mut' and any(e.tag == 'ev' and e[2].endswith('::push') and e[3] and strip(e[3][0]) is pt for e in sm[2]):
+                return slot
         else:
             st = strip(stored)
             if st.tag == 'call' and st[1].endswith('Compressable::compress'):
